@@ -154,8 +154,58 @@ func NewCase(r *rand.Rand, ks gen.KeySet, flags, enc string) *Case {
 			}
 		}
 	}
+	if (enc == "s16" || enc == "raw") && n >= 3 && r.Intn(4) == 0 {
+		cs.balanceWidths(r)
+	}
 	cs.oracle()
 	return cs
+}
+
+// balanceWidths makes the value widths of a variable-width case "almost fixed": every run gets
+// width c except one pair of runs with widths c-d and c+d, so that the total equals count*c although
+// the widths differ (a fixed-size shortcut in the leaf array that looks at sums, at the first or at
+// the last element only is wrong exactly here).
+func (cs *Case) balanceWidths(r *rand.Rand) {
+	runOf := make([]int, len(cs.Vals))
+	nruns := 0
+	for i := range cs.Vals {
+		if i > 0 && !bytes.Equal(cs.Vals[i], cs.Vals[i-1]) {
+			nruns++
+		}
+		runOf[i] = nruns
+	}
+	nruns++
+	if nruns < 3 {
+		return
+	}
+	c := 2 + r.Intn(4)
+	d := 1 + r.Intn(c-1)
+	a, b := r.Intn(nruns), r.Intn(nruns)
+	if a == b {
+		b = (a + 1) % nruns
+	}
+	salt := r.Uint64()
+	mk := func(run, w int) []byte {
+		x := uint64(run)*0x9E3779B97F4A7C15 + salt
+		out := make([]byte, w)
+		for i := range out {
+			out[i] = byte(x>>uint(8*(i%8))) | 1
+		}
+		if cs.Enc == "s16" {
+			out = append([]byte{0, byte(w)}, out...)
+		}
+		return out
+	}
+	for i := range cs.Vals {
+		w := c
+		if runOf[i] == a {
+			w = c - d
+		} else if runOf[i] == b {
+			w = c + d
+		}
+		cs.Vals[i] = mk(runOf[i], w)
+	}
+	cs.Class += "+balanced-widths"
 }
 
 func (cs *Case) oracle() {
